@@ -11,7 +11,7 @@ import (
 func init() {
 	register(&Spec{ID: "C02", Title: "Received package stream does not depend on fragmentation", Run: runC02,
 		Meta: core.Meta{
-			Explanation: "Structural necessary conditions of fragmentation independence; equality of delivered packages over all cut sets is not decided. R02.1 (parse-or-rollback in WritePacket): the position handed to SetPosition on a failed attempt is exactly the pair returned by the Position() call made in the same loop iteration before tryParsePackage, with no DiscardUntilCurrentPosition in between (a discard shifts packet indices); a failed attempt returns through Reset() on the IsEOM edge or through that SetPosition; a successful attempt is followed by DiscardUntilCurrentPosition before the next attempt. R02.2: fresh parse state per attempt — every arm of LookupPackage returns a freshly allocated package, tryParsePackage calls it once per attempt, no wire-reading function writes a package-level variable. R02.3: transport reads that must fill a fixed buffer are io.ReadFull or sit in a counted loop: PacketHeader.ReadFrom returns success only after a full 8-byte read, Packet.ReadFrom returns success only when totalBytes == Header.Length. R02.4: AddPacket appends at the end of the queue and derives recvEOM from the packet's EOM bit only. R02.5: the parser side of fragmentation tolerance — every short read surfaces as ErrNotEnoughBytes — is C07's E-ERR rule, re-run here over all wire-read call sites (a parser that loses one such check reports a parse error for a response that is merely fragmented at that point). R02.1 also requires that tryParsePackage handles one package per invocation (no self-call, no loop around LookupPackage), so that the discard and the next saved position follow every handled package. R02.6: every return of PacketQueue.Bytes hands back the buffer allocated by that call (never a sub-slice of packet storage or a reused buffer that later reads overwrite while delivered packages still reference it).",
+			Explanation: "Structural necessary conditions of fragmentation independence; equality of delivered packages over all cut sets is not decided. R02.7: in NextPackageUntil the wait flag handed to NextPackage is the constant true on every back edge of the receive loop (only the first receive may poll). R02.8 = R14.4 (the reader goroutine hands every completely received packet, including one returned together with io.EOF, to its channel). R02.1 (parse-or-rollback in WritePacket): the position handed to SetPosition on a failed attempt is exactly the pair returned by the Position() call made in the same loop iteration before tryParsePackage, with no DiscardUntilCurrentPosition in between (a discard shifts packet indices); a failed attempt returns through Reset() on the IsEOM edge or through that SetPosition; a successful attempt is followed by DiscardUntilCurrentPosition before the next attempt. R02.2: fresh parse state per attempt — every arm of LookupPackage returns a freshly allocated package, tryParsePackage calls it once per attempt, no wire-reading function writes a package-level variable. R02.3: transport reads that must fill a fixed buffer are io.ReadFull or sit in a counted loop: PacketHeader.ReadFrom returns success only after a full 8-byte read, Packet.ReadFrom returns success only when totalBytes == Header.Length. R02.4: AddPacket appends at the end of the queue and derives recvEOM from the packet's EOM bit only. R02.5: the parser side of fragmentation tolerance — every short read surfaces as ErrNotEnoughBytes — is C07's E-ERR rule, re-run here over all wire-read call sites (a parser that loses one such check reports a parse error for a response that is merely fragmented at that point). R02.1 also requires that tryParsePackage handles one package per invocation (no self-call, no loop around LookupPackage), so that the discard and the next saved position follow every handled package. R02.6: every return of PacketQueue.Bytes hands back the buffer allocated by that call (never a sub-slice of packet storage or a reused buffer that later reads overwrite while delivered packages still reference it).",
 			NotDecided:  "Values, order and exactly-once delivery of packages across packetisations are not decided.",
 			Assumptions: []string{"io.ReadFull contract (standard library)"},
 		}})
@@ -25,6 +25,8 @@ func runC02(r *core.Run) {
 	r.Rule("R02.3", "fixed-size transport reads are complete before success", 3, false)
 	r.Rule("R02.4", "AddPacket appends in arrival order; recvEOM from the EOM bit only", 2, false)
 	r.Rule("R02.6", "values handed to the parsers do not alias queue storage", 1, false)
+	r.Rule("R02.7", "NextPackageUntil waits for every package after the first", 1, false)
+	r.Rule("R02.8", "the reader goroutine routes every completely received packet (R14.4)", 4, false)
 	r.Rule("R02.5", "every short read surfaces as ErrNotEnoughBytes (E-ERR, all call sites)", 213, true)
 
 	c02Rollback(r, "R02.1")
@@ -36,8 +38,53 @@ func runC02(r *core.Run) {
 		u, ok := v.(*ssa.UnOp)
 		return ok && u.Op == token.MUL && u.X == ssa.Value(eofZero)
 	})
-	c02AddPacket(r)
+	c02AddPacket(r, "R02.4")
 	errSites(r, ef, "R02.5")
+	c02WaitAfterFirst(r)
+	c14Conn(r, "R02.8")
+}
+
+// c02WaitAfterFirst: R02.7. NextPackageUntil polls (wait == false) at most for the FIRST package: once a package of a
+// response was consumed every further NextPackage call of the loop waits — otherwise a response that is cut into
+// packets behind the packages consumed so far ends the loop early ("no package") and its rest is left in the queue.
+func c02WaitAfterFirst(r *core.Run) {
+	p := r.Prog
+	fn := p.Func("tds", "Channel", "NextPackageUntil")
+	np := p.Func("tds", "Channel", "NextPackage")
+	n := 0
+	for _, c := range callsTo(fn, np) {
+		n++
+		arg := c.Common().Args[2]
+		h, loop := core.InnermostLoop(c.Block())
+		why := ""
+		switch x := arg.(type) {
+		case *ssa.Const:
+			if x.Value == nil || x.Value.ExactString() != "true" {
+				why = "NextPackage is always called with wait == false"
+			}
+		case *ssa.Phi:
+			if h == nil || x.Block() != h {
+				why = "the wait flag is not the loop-carried flag of the receive loop"
+				break
+			}
+			for i, e := range x.Edges {
+				if !loop[h.Preds[i]] {
+					continue // entry edge: the caller's choice
+				}
+				if !allLeavesTrue(e, map[*ssa.Phi]bool{x: true}) {
+					why = "the loop can come back to NextPackage with wait still being " + core.Expr(e) + ": after a package was consumed the next receive may poll instead of wait, and a response fragmented behind that package is abandoned half-read"
+				}
+			}
+		default:
+			if h != nil {
+				why = "the wait flag " + core.Expr(arg) + " is never set to true inside the receive loop"
+			}
+		}
+		r.Check(why == "", "R02.7", "NextPackageUntil: every receive after the first waits", c.Pos(), "wait is the constant true on every back edge of the receive loop", why)
+	}
+	if n == 0 {
+		r.Unknown("R02.7", "NextPackageUntil: NextPackage call", fn.Pos(), "no NextPackage call found")
+	}
 }
 
 func c02Rollback(r *core.Run, rule string) {
@@ -211,7 +258,7 @@ func c02Rollback(r *core.Run, rule string) {
 	onePerAttempt(r, rule)
 }
 
-func c02AddPacket(r *core.Run) {
+func c02AddPacket(r *core.Run, rule string) {
 	p := r.Prog
 	fn := p.Func("tds", "PacketQueue", "AddPacket")
 	fQueue := p.Field("tds", "PacketQueue", "queue")
@@ -243,7 +290,7 @@ func c02AddPacket(r *core.Run) {
 			}
 		}
 	}
-	r.Check(okApp, "R02.4", "AddPacket: queue = append(queue, packet)", fn.Pos(), "appended at the end", "a received packet is not appended at the end of the rx queue: arrival order is not preserved")
+	r.Check(okApp, rule, "AddPacket: queue = append(queue, packet)", fn.Pos(), "appended at the end", "a received packet is not appended at the end of the rx queue: arrival order is not preserved")
 	okEOM, whyEOM := false, "recvEOM is never set"
 	for _, b := range fn.Blocks {
 		for _, in := range b.Instrs {
@@ -281,7 +328,7 @@ func c02AddPacket(r *core.Run) {
 			}
 		}
 	}
-	r.Check(okEOM, "R02.4", "AddPacket: recvEOM only from the EOM bit", fn.Pos(), "Status&TDS_BUFSTAT_EOM == TDS_BUFSTAT_EOM → recvEOM = true", whyEOM)
+	r.Check(okEOM, rule, "AddPacket: recvEOM only from the EOM bit", fn.Pos(), "Status&TDS_BUFSTAT_EOM == TDS_BUFSTAT_EOM → recvEOM = true", whyEOM)
 }
 
 // onePerAttempt: tryParsePackage handles at most one package per invocation
@@ -303,4 +350,24 @@ func onePerAttempt(r *core.Run, rule string) {
 		}
 	}
 	r.Check(ok, rule, "tryParsePackage: one package per attempt", tpp.Pos(), "no self-call, no loop around LookupPackage", why)
+}
+
+// allLeavesTrue: v is the constant true, or a φ (not one of stop) all of whose inputs are.
+func allLeavesTrue(v ssa.Value, stop map[*ssa.Phi]bool) bool {
+	switch x := v.(type) {
+	case *ssa.Const:
+		return x.Value != nil && x.Value.ExactString() == "true"
+	case *ssa.Phi:
+		if stop[x] {
+			return false
+		}
+		stop[x] = true
+		for _, e := range x.Edges {
+			if !allLeavesTrue(e, stop) {
+				return false
+			}
+		}
+		return true
+	}
+	return false
 }
